@@ -35,11 +35,12 @@
 #define CAT3(a, b, c)	CAT3_ (a, b, c)
 
 static int stub_block_called ;
+static sf_count_t g_coder_pos = -1 ;	/* file position when the (stubbed) block decoder was last called */
 
 #if defined (CODEC_IMA)
 typedef IMA_ADPCM_PRIVATE PRIV_T ;
 #define PFX ima_
-static int stub_coder (SF_PRIVATE *psf, IMA_ADPCM_PRIVATE *p) { (void) psf ; (void) p ; stub_block_called ++ ; return 1 ; }
+static int stub_coder (SF_PRIVATE *psf, IMA_ADPCM_PRIVATE *p) { (void) p ; stub_block_called ++ ; g_coder_pos = psf_ftell (psf) ; return 1 ; }
 static short g_samples [64 * CH + 8] ;
 static unsigned char g_block [64] ;
 #define SETUP(p)	do { (p)->channels = CH ; (p)->samplesperblock = 64 ; (p)->blocks = 4 ; (p)->blockcount = 1 ; (p)->samplecount = SC ; (p)->samples = g_samples ; \
@@ -47,6 +48,16 @@ static unsigned char g_block [64] ;
 #define POS(p)		((p)->samplecount)
 #define SAMPLES(p)	((p)->samples)
 #define WNORM		(1.0 * 0x7FFF)
+#define SEEK_SPB	64
+#ifdef AIFF_LAYOUT
+#define SEEK_FN		aiff_ima_seek
+#define SEEK_BLOCK_BYTES	(34 * CH)	/* one 34-byte packet per channel */
+#define SEEK_SETUP(p, nb)	do { (p)->blocksize = 34 ; (p)->blocks = (nb) * CH ; (p)->blockcount = 3 ; } while (0)
+#else
+#define SEEK_FN		wavlike_ima_seek
+#define SEEK_BLOCK_BYTES	(36 * CH)
+#define SEEK_SETUP(p, nb)	do { (p)->blocksize = 36 * CH ; (p)->blocks = (nb) ; (p)->blockcount = 3 ; } while (0)
+#endif
 #elif defined (CODEC_MS)
 typedef MSADPCM_PRIVATE PRIV_T ;
 #define PFX msadpcm_
@@ -59,11 +70,16 @@ static unsigned char g_block [64] ;
 #elif defined (CODEC_GSM)
 typedef GSM610_PRIVATE PRIV_T ;
 #define PFX gsm610_
-static int stub_coder (SF_PRIVATE *psf, GSM610_PRIVATE *p) { (void) psf ; (void) p ; stub_block_called ++ ; return 1 ; }
+static int stub_coder (SF_PRIVATE *psf, GSM610_PRIVATE *p) { (void) p ; stub_block_called ++ ; g_coder_pos = psf_ftell (psf) ; return 1 ; }
 #define SETUP(p)	do { (p)->samplesperblock = 160 ; (p)->blocks = 4 ; (p)->blockcount = 1 ; (p)->samplecount = SC ; (p)->decode_block = stub_coder ; (p)->encode_block = stub_coder ; } while (0)
 #define POS(p)		((p)->samplecount)
 #define SAMPLES(p)	((p)->samples)
 #define WNORM		(1.0 * 0x7FFF)
+#define SEEK_SPB	160
+#define SEEK_FN		gsm610_seek
+#define SEEK_BLOCK_BYTES	33
+#define SEEK_SETUP(p, nb)	do { (p)->blocksize = 33 ; (p)->blocks = (nb) ; (p)->blockcount = 3 ; psf->sf.format = SF_FORMAT_AIFF | SF_FORMAT_GSM610 ; \
+				(p)->gsm_data = gsm_create () ; VASSUME ((p)->gsm_data != NULL) ; } while (0)
 #elif defined (CODEC_G72X)
 typedef G72x_PRIVATE PRIV_T ;
 #define PFX g72x_
@@ -236,6 +252,25 @@ main (void)
 		VASSERT (stub_block_called == 0, "no block is encoded before the block is complete") ;
 		for (j = 0 ; j < LEN ; j++)
 			VASSERT (SAMPLES (p) [SC * CH + j] == W_EXPECT (nd_in [j]), "item j is staged at (position * channels + j) in the codec's 16-bit domain") ;
+	}
+#elif defined (SEL_SEEK)
+	{	/* X_seek (SFM_READ, offset) for ANY frame offset: the file is positioned at the block that holds the frame (block b of a
+		** c-channel file starts at dataoffset + b * BLOCK_BYTES), exactly that block is decoded, the position inside it is
+		** offset mod frames-per-block, the offset is returned; offsets beyond the data are refused */
+		sf_count_t nd_off = nondet_i64 (), spb = SEEK_SPB, nblocks = 6 ;
+		psf->file.mode = SFM_READ ;
+		psf->dataoffset = 10 ; psf->datalength = nblocks * SEEK_BLOCK_BYTES ; psf->sf.frames = nblocks * spb ;
+		mf [0].len = 10 + nblocks * SEEK_BLOCK_BYTES ; mf [0].pos = 0 ;
+		SEEK_SETUP (p, nblocks) ;
+		ret = SEEK_FN (psf, SFM_READ, nd_off) ;
+		/* (offsets beyond the frame count never reach the codec: sf_seek refuses them - C06 wrap.seek) */
+		if (nd_off < 0)
+			VASSERT (ret == PSF_SEEK_ERROR, "negative offsets are refused") ;
+		else if (nd_off > 0 && nd_off < nblocks * spb)
+		{	VASSERT (ret == nd_off, "seek returns the requested frame") ;
+			VASSERT (stub_block_called == 1 && g_coder_pos == 10 + (nd_off / spb) * SEEK_BLOCK_BYTES, "exactly the block holding the frame is decoded, from its position in the file") ;
+			VASSERT (POS (p) == nd_off % spb, "position inside the block = offset mod frames per block") ;
+			} ;
 	}
 #else
 #error "select"
